@@ -617,6 +617,45 @@ theorem vecNthFixedP_np (f : Bytes → Out CqlVal) (hf : FNP f) (size remaining 
         · exact vecNextFixedP_np f hf size _ _
     · exact vecNextFixedP_np f hf size _ _
 
+/-- The three panic tests of `vecNthFixedP` are dead by the single guard `n >= remaining` (plus `remaining ≤
+usize::MAX`): no arithmetic beyond that comparison is needed. -/
+theorem vecNth_guards_dead (remaining n : Nat) (hr : remaining ≤ USIZE_MAX) (hn : ¬ n ≥ remaining) :
+    ¬ (n + 1 > USIZE_MAX) ∧ ¬ (remaining < n + 1) ∧ ¬ (remaining < n) := by
+  omega
+
+theorem vecNextVarP_np (f : Bytes → Out CqlVal) (hf : FNP f) (remaining : Nat) (bs : Bytes) :
+    NPo (vecNextVarP f remaining bs) := by
+  unfold vecNextVarP
+  split
+  · npo_leaf
+  · have h0 := uvintDecP_np bs
+    split
+    · rename_i s he; exact (npo_fwd h0 he).elim
+    · npo_leaf
+    · rename_i size r0 _
+      have h1 := readNP_np size.toNat r0
+      split
+      · rename_i s he; exact (npo_fwd h1 he).elim
+      · npo_leaf
+      · npo_leaf
+      · split
+        · rename_i s he; exact (npo_fwd (hf _) he).elim
+        · npo_leaf
+        · npo_leaf
+
+theorem vecNthVarP_np (f : Bytes → Out CqlVal) (hf : FNP f) :
+    ∀ (n remaining : Nat) (bs : Bytes), NPo (vecNthVarP f n remaining bs)
+  | 0, remaining, bs => by unfold vecNthVarP; exact vecNextVarP_np f hf remaining bs
+  | n + 1, remaining, bs => by
+    unfold vecNthVarP
+    have h := vecNextVarP_np f hf remaining bs
+    split
+    · rename_i s he; exact (npo_fwd h he).elim
+    · npo_leaf
+    · npo_leaf
+    · rename_i r b _
+      exact vecNthVarP_np f hf n r b
+
 theorem vecSizeHintP_np (remaining : Nat) : NPo (vecSizeHintP remaining) := by
   unfold vecSizeHintP; simp only [ne_eq, not_true_eq_false, if_false]; npo_leaf
 
